@@ -113,3 +113,12 @@ Theorem c01_semigroup : forall n (A : nat -> nat -> R) (b : nat -> R) (Phi : (na
   forall x h1 h2, 0 <= h1 -> 0 <= h2 -> forall i, (i < n)%nat -> Phi (Phi x h1) h2 i = Phi x (h1 + h2) i.
 Proof. exact flow_semigroup. Qed.
 Print Assumptions c01_semigroup.
+
+(* options that do not change the mathematics: whatever is requested through preserve_expressions, the update
+   expression returned for an analytically solved variable is the computed one (rule REGENERATED from the last loop of
+   _analysis on every run) *)
+From OdeVerif Require Import Gen.PreserveGen.
+Theorem c01_flags_leave_analytic_untouched : forall (T : Type) (requested : bool) (computed user_text : T),
+  returned_update T true requested computed user_text = computed.
+Proof. intros T [|] computed user_text; reflexivity. Qed.
+Print Assumptions c01_flags_leave_analytic_untouched.
